@@ -74,6 +74,14 @@ def rn1(prog, rr):
     want_size = "self.size.set_used_rand(%s, %s + 1, %s)" % (p[1], p[2], p[3])
     if want_super not in calls:
         rr.finding(fa, fa.node, "FieldArrayModel.set_used_rand", "RN1: array does not forward its arguments to the composite rule", text="super call")
+    else:
+        from sa.ir import guard_facts as _gf
+        sc = next(n for n in walk_local(fa.node) if isinstance(n, ast.Call) and norm(n) == want_super)
+        g = _gf(fa.node, sc, with_raise=False)
+        if g:
+            rr.finding(fa, sc, "FieldArrayModel.set_used_rand", "RN1: the list forwards to the composite rule only under %s: below a list that is not random in this "
+                       "call the element flags of an earlier call survive (elements get callbacks / are solved although the list is not random)" % g,
+                       text="conditional super call")
     if want_size not in calls:
         rr.finding(fa, fa.node, "FieldArrayModel.set_used_rand", "RN1: the size field does not receive (is_rand, level+1)", text="size call")
     # call-site discipline over the whole program
@@ -454,7 +462,7 @@ def _unconditional_resets(prog, cls, attr):
     return out
 
 
-@rule("SH4", ["C16", "C04", "C03", "C02"], "solver-handle attributes are reset on both exits of a solve; failure path disposes every field", engine="EFF+CG", floor=4)
+@rule("SH4", ["C16", "C04", "C03", "C02", "C01"], "solver-handle attributes are reset on both exits of a solve; failure path disposes every field", engine="EFF+CG", floor=4)
 def sh4(prog, rr):
     cg = callgraph(prog)
     rnd = prog.method("Randomizer", "randomize")
